@@ -351,9 +351,22 @@ func lemmaC14IdentAntisym(x, y string, diff int) (fwd, bwd int) {
 //@   lemma
 //@   requires i == firstDiff(v.PreRelease, w.PreRelease)
 //@   ensures [C14.antisym] fwd == -bwd
+//@   ensures [C14.antisym] v.Compare(w) == -w.Compare(v)
 
 func lemmaC14SameStart(a, b string, i int) (s1, s2 int) {
 	return strings.LastIndexByte(a[:i], '.'), strings.LastIndexByte(b[:i], '.')
+}
+
+// Latest returns an upper bound of its two operands in the order Compare defines (it is one of them: lemmaC14LatestNeverLower)
+//@ func lemmaC14LatestIsMax
+//@   lemma
+//@   requires i == firstDiff(v.PreRelease, w.PreRelease)
+//@   ensures [C14.latest] cv >= 0 && cw >= 0
+
+func lemmaC14LatestIsMax(v, w Ver, i int) (cv, cw int) {
+	lemmaC14Antisym(v, w, i)
+	l := v.Latest(w)
+	return l.Compare(v), l.Compare(w)
 }
 
 func lemmaC14DefaultAntisym(a, b string, i int) (fwd, bwd int) {
